@@ -106,5 +106,5 @@ def run(ctx):
         o = obs[i]
         for law in laws:
             ctx.violation('C07|%s|%s|%s' % (o['fam'], law, O.theta_bucket(o['fam'], float(o['theta']))),
-                          '%s at theta=%s violates %s' % (o['fam'], o['theta'], law), {'fam': o['fam'], 'theta': o['theta'], 'law': law})
+                          '%s at theta=%s violates %s' % (o['fam'], o['theta'], law), {'fam': o['fam'], 'theta': o['theta'], 'law': law, 'rerun': ['harness.props.C07._observe', list(jobs[i])]})
     ctx.exhaustive = False
